@@ -11,7 +11,11 @@ import (
 	"github.com/theory/sqljson/path/exec"
 )
 
-var ctxErrs = map[string]error{"canceled": context.Canceled, "deadline": context.DeadlineExceeded}
+// "cause": the context is a child of a context.WithCancelCause parent that is cancelled with a custom
+// cause at the k-th poll: ctx.Err() is context.Canceled while context.Cause(ctx) is the custom error.
+var ctxErrs = map[string]error{"canceled": context.Canceled, "deadline": context.DeadlineExceeded, "cause": context.Canceled}
+
+var errC20Cause = errors.New("harness: custom cancellation cause")
 
 // c20Polls runs the uncancelled call and returns the number of polls and the outcome.
 func c20Run(c Case, k int64) (Out, *pollCtx, int) {
@@ -21,6 +25,12 @@ func c20Run(c Case, k int64) (Out, *pollCtx, int) {
 	}
 	cfg := cfgOf(c)
 	pc := newPollCtx(context.Background(), k, ctxErrs[c.Extra["err"]])
+	if c.Extra["err"] == "cause" {
+		parent, cancel := context.WithCancelCause(context.Background())
+		defer cancel(nil)
+		pc.parent = parent
+		pc.onFire = func() { cancel(errC20Cause) }
+	}
 	cfg.ctx = pc
 	doc := mustDoc(c.Doc, c.Num)
 	out := implEntry(c.Entry, p, doc, cfg)
@@ -110,14 +120,14 @@ func contains(s, sub string) bool {
 
 func runC20(r *Run) {
 	r.Level = "fault_enumeration"
-	r.Rule("for every (path, doc) of the pool, every entry point, error kind, silent/verbose: the context reports done from the k-th Done() poll, for EVERY k in 0..n (n = polls of the uncancelled run); non-trivial = the done answer was actually observed (k < n); distinct = distinct (path, doc, entry, error, silent, k)")
+	r.Rule("for every (path, doc) of the pool, every entry point, kind of ended context (context.Canceled, context.DeadlineExceeded, and a child of a WithCancelCause parent cancelled with a custom cause), silent/verbose: the context reports done from the k-th Done() poll, for EVERY k in 0..n (n = polls of the uncancelled run); non-trivial = the done answer was actually observed (k < n); distinct = distinct (path, doc, entry, error, silent, k)")
 	r.Assume("the executor learns about cancellation only through ctx.Done()/ctx.Err()", "pool paths cover every node kind; generated paths extend it in the thorough tier")
 	items := pool()
 	type job struct{ c Case }
 	var jobs []Case
 	for _, it := range items {
 		for _, entry := range entryNames {
-			for _, ek := range []string{"canceled", "deadline"} {
+			for _, ek := range []string{"canceled", "deadline", "cause"} {
 				for _, silent := range []bool{false, true} {
 					jobs = append(jobs, Case{Rule: "cancel-at-poll-k", Path: it.Path, Doc: it.Doc, Num: "float64", Vars: it.Vars,
 						Silent: silent, TZ: it.TZ, Zone: it.Zone, Entry: entry, Extra: map[string]string{"err": ek}})
@@ -178,9 +188,9 @@ func runC20(r *Run) {
 		for _, x := range c {
 			gen2++
 			for _, entry := range entryNames {
-				eks := []string{"canceled", "deadline"}
+				eks := []string{"canceled", "deadline", "cause"}
 				if !r.Thorough() {
-					eks = eks[ci%2 : ci%2+1] // quick: the two context errors alternate over the generated programs
+					eks = eks[ci%3 : ci%3+1] // quick: the three kinds of ended context alternate over the generated programs
 				}
 				for _, ek := range eks {
 					for _, silent := range []bool{false, true} {
